@@ -64,6 +64,16 @@ CHECKS = {
             'cross function boundaries) is classified by the binding and the read lying in different functions.',
             'Reads in lambda bodies and except-clause names are not judged (documented as untracked).',
             'DESIGN.md 3/C06'),
+    'C07': ('exploration',
+            'probe twin: backward use-before-overwrite pass over the ordered read/write/boundary event list, checked against the recorded liveness Analyzer',
+            'Every read, binding, delete and CFG-node boundary of a twin run is logged in one global order, reads and writes being '
+            'attributed to the invocation that owns the variable (also when a nested function performs them). A backward pass '
+            'yields, for every executed boundary, the variables of that invocation whose current value is read later within its '
+            'dynamic extent; they must be in Analyzer.in_ of the node about to run, Analyzer.out of the node that just ran and '
+            'LIVE_VARS_IN/OUT of compound statements entered/left. Fixed-point equations of every recorded Analyzer are checked. '
+            'Random programs, skeletons with all decision vectors (zero-trip loops) and an enumerated closure matrix.',
+            'Reads after the invocation returned and boundaries passed during exceptional propagation are not judged.',
+            'DESIGN.md 3/C07'),
     'C09': ('exploration',
             'interface differential against the original function object and CPython argument binding',
             'Random signatures over all five parameter kinds and closure shapes, as functions, lambdas, methods, loop-made and '
